@@ -29,6 +29,7 @@ func checkC04(c *Ctx, r *Report) {
 	c04Arms(c, r, a)
 	c10Req(c, r, a, "C04.REQ")
 	c04Vars(c, r, a)
+	c04Source(c, r, a)
 	c04Narrow(c, r, "C04.NARROW", "CoerceIn", 6)
 	c04Input(c, r)
 }
@@ -582,4 +583,45 @@ func c04Input(c *Ctx, r *Report) {
 		}
 	}
 	r.check("C04.INPUT", fnName(fn)+": supplied field values are coerced by the field's declared type", fn.Pos(), coerces, "no CoerceIn invocation on the InCoercer of f.Type")
+}
+
+// c04Source: what the argument builder hands to a resolver under an argument name is the result of the
+// substitution-and-coercion function applied during this very evaluation (together with its errors). A
+// value remembered from an earlier evaluation arrives without the errors that evaluation reported, so a
+// rejected constant reaches the resolver from the second evaluation on.
+func c04Source(c *Ctx, r *Report, a *Anchors) {
+	r.rule("C04.SOURCE", "every value stored into the argument map by the argument builder is result #0 of a call of the substitution function made in the same invocation")
+	fn := a.formArgs
+	if fn == nil || a.subst == nil {
+		r.undecided("C04.SOURCE", "anchors: argument builder / substitution", 0, "not found")
+		return
+	}
+	n := 0
+	for _, b := range fn.Blocks {
+		for _, in := range b.Instrs {
+			mu, ok := in.(*ssa.MapUpdate)
+			if !ok || !isStrIfaceMap(mu.Map.Type()) {
+				continue
+			}
+			// the key is an argument name taken from the request
+			if _, o, f, ok := loadOfField(mu.Key); !ok || o != "ArgValue" || f != "Arg" {
+				continue
+			}
+			n++
+			leaves, _ := phiLeaves(mu.Value)
+			bad := ""
+			for _, lf := range leaves {
+				ex, ok := lf.val.(*ssa.Extract)
+				if ok && ex.Index == 0 {
+					if call, ok := ex.Tuple.(*ssa.Call); ok && call.Call.StaticCallee() == a.subst {
+						continue
+					}
+				}
+				bad = shortPath(vpath(lf.val))
+			}
+			r.check("C04.SOURCE", fmt.Sprintf("%s: argument store #%d takes the substitution's result of this evaluation", fnName(fn), n), mu.Pos(), bad == "",
+				"the stored value may be "+bad+", which is not the result of coercing the argument now: the errors found when it was first coerced are not reported again, so the resolver is invoked with a value that was rejected")
+		}
+	}
+	r.floor("C04.SOURCE", "argument stores in the argument builder", n, 1)
 }
